@@ -5,6 +5,7 @@ import re
 
 from ..astutil import dotted, calls, call_name, body_walk, walk_local, method_calls
 from ..loader import AnalysisError, norm
+from ..fdeval import Raised
 from ..symbols import Symbols
 from .resolver_model import Model, score_value
 
